@@ -18,7 +18,8 @@ from harness.C14 import oracle
 # theorems of Props/C14.lean; the ones in PROPS_GEN mention the regenerated configuration / tables (Gen/Int64.lean)
 PROPS_GEN = ["no_ub", "compare_mixed_correct", "compare_mixed_correct_unsigned", "compare_mixed_correct_rat", "method_tables_ok", "dispatch_left_then_reversed_right",
              "nary_mod_is_left_fold", "nary_rows_complete", "poly_compare_correct", "compare_chain_correct", "string_entries_complete",
-             "math_registrations_ok", "poly_predicates_correct", "parity_predicates_correct", "poly_predicates_table"]
+             "math_registrations_ok", "poly_predicates_correct", "parity_predicates_correct", "poly_predicates_table",
+             "s64_type_mixes_agree", "u64_type_mixes_agree"]
 PROPS = ["wrap_ops_eq_bitvec", "wrap_ops_in_range", "shift_ops_eq_bitvec", "divf_eq_floor_div", "mod_eq_floor_mod", "trunc_div_rem_correct",
          "mod_zero_is_dividend", "div_zero_errors", "no_ub_iff_guarded", "no_ub_partial", "ub_reachable_on_pinned",
          "cmpIntDbl_is_exact", "cmpIntDbl_eq_rat", "rnd53_exact_small_monotone_edge", "compare_mixed_correct_of_inclusive", "compare_mixed_partial",
@@ -352,7 +353,8 @@ def run(ctx):
         "rule": "distinct protocol line = (operator, typed operand(s)); operands from boundary-dense pools (0, +-1, 2^31, 2^32, 2^53, 2^63, 2^64 and "
                 "neighbours, random 64-bit patterns, fractions, infinities, NaN, numeric and malformed strings) x 13 arithmetic/bitwise operators, 6 comparators, "
                 "compare, cmp x 16 type mixes (number, s64, u64, string on either side), unary forms, constructors, int/to-number, immediate-opcode forms, "
-                "and the two static compare functions called directly; every line is evaluated by the implementation and by the Lean model driver and "
+                "the two static compare functions called directly, math/floor ceil trunc round abs gcd lcm, boot.janet zero? pos? neg? one? even? odd?, and the integer family "
+                "(integer pairs |x|,|y| <= 2^53 x + - * div mod % x 7 number/s64/u64 mixes, judged by exact integers); every line is evaluated by the implementation and by the Lean model driver and "
                 "judged by the Python oracle where the property makes a claim",
         "samples": lines[len(targeted):len(targeted) + 3] + lines[-3:],
         "correspondence_lines": len(lines), "correspondence_diffs": len(diffs),
@@ -367,7 +369,10 @@ def run(ctx):
         "IEEE-754 arithmetic on two plain numbers: the model's own executable instance (Int64/Ieee.lean: exact rational result, rounded once to nearest-even; "
         "floor and fmod exact) is proved to meet the mathematical rounding rneQ (IeeeQ.lean) and is compared bit for bit with the hardware / libm results of the "
         "implementation on >= 10^5 operand pairs per run (NaN payloads canonicalised: a janet number holds one quiet NaN); that the CPU and libm implement "
-        "IEEE-754 is what this comparison tests, not a theorem. The NaN / infinity / signed-zero rules are part of the instance's definition (tested bit for bit, not proved against a separate spec)",
+        "IEEE-754 is what this comparison tests, not a theorem. The NaN / infinity / signed-zero rules are part of the instance's definition (tested bit for bit, not proved against a separate spec). "
+        "No representability hypothesis remains for integer-valued operands of magnitude <= 2^53 (num_ops_exact_on_integers); for general doubles div / mod are characterised as "
+        "floor(RN(a/b)) / RN(a - RN(b*floor(RN(a/b)))) only, and (mod x y) on integers outside the side condition |y*floor(x/y)| <= 2^53 follows that formula (witness theorem)",
+        "libm floor / ceil / trunc / round / fabs / fmod are black boxes in C: the model's versions are proved to be the mathematical functions and compared bit for bit with libm on every run",
         "shift counts outside the operand width and signed left shifts that overflow are undefined in ISO C; modelled as the hardware does (count mod width, "
         "two's-complement result) and tested on the non-sanitized build; the property makes no claim there",
         "`bnot` of a number outside int32 converts an out-of-range double to int32 unchecked (ISO C undefined): no claim, not compared",
